@@ -3,10 +3,15 @@
    Property theorems only; helper lemmas live in AJ/Lemmas/Digits.lean.
    `Digits.decVal` / `Digits.AllDigits` specify decimal notation independently of `Nat.toDigits`;
    `Digits.digits_spec` says `JS.digits n` is THE decimal numeral of `n` (all digits, value `n`,
-   non-empty, no leading zero unless `n = 0`). -/
+   non-empty, no leading zero unless `n = 0`).
+   Second half of the file: the FLOATING-POINT clauses (tables, one multiplication, decimal scan, accuracy of the
+   binary64 / binary32 paths, magnitude clauses, saturated exponents; capstone `C12.float_clauses`).
+   Helper lemmas: AJ/Lemmas/FloatErr{Tables,Round,Scan}.lean (core Lean) and FloatErr{Q,Loop,Make,Finish,Top}.lean
+   (ℚ; single Mathlib modules for ordered-field tactics). -/
 import AJ.Model.JD
 import AJ.Model.JS
 import AJ.Lemmas.Digits
+import AJ.Lemmas.FloatErrTop
 namespace C12
 open JD Digits
 
@@ -198,4 +203,700 @@ example : ∀ m, parseNumber {} [0x31,0x2E,0x30] ≠ .uint m := by
   · rw [← e] at hd; exact absurd (hd 0x2E (by decide)) (by decide)
   · exact absurd (List.cons.inj e).1 (by decide)
 example : parseNumber {} [] = .invalid ∧ parseNumber {} [0x2D] = .invalid ∧ parseNumber {} [0x2B] = .invalid := by decide +kernel
+end C12
+
+/-! # C12, floating-point clauses
+
+   Exact values are rationals: `qv m e = m·2^e`, `sval n m e = ±m·2^e`, `litAbs ip f e` / `litVal neg ip f e` = the exact value of
+   the literal `-? ip f e` (`ip` integer digits, `f` = `[]` or `'.' :: digits`, `e` = `[]` or `[eE][+-]?digits`),
+   `Close δ x y := |x − y| ≤ δ·y`.  Helper lemmas: AJ/Lemmas/FloatErr*.lean. -/
+namespace C12
+open SF JD Digits Spec.Json
+
+/-! ## 1. the generated tables are correctly rounded powers of ten (re-checked by the kernel on the generated lists) -/
+
+/-- `pos64[i] = RNE(10^(2^i))` (what the softfloat's round-to-nearest-even conversion, proved nearest in C13, returns),
+    within half an ulp and within `2^-53` relatively (`entryOK`); `neg64[i]` is a normal datum within half an ulp of
+    `10^(-2^i)`, not at the bottom of its binade (so: a nearest datum), within `2^-53` relatively; the same for the
+    binary32 tables with `2^-24`. -/
+theorem tables_correct :
+    (Gen.pos64.length = 9 ∧ Gen.neg64.length = 9 ∧
+      ∀ i, i < 9 →
+        ofNat b64 (10 ^ 2 ^ i) = Gen.pos64.getD i 0 ∧
+        entryOK b64 (Gen.pos64.getD i 0) (10 ^ 2 ^ i) 1 = true ∧
+        entryOK b64 (Gen.neg64.getD i 0) 1 (10 ^ 2 ^ i) = true ∧
+        interiorOK b64 (Gen.neg64.getD i 0) = true) ∧
+    (Gen.pos32.length = 6 ∧ Gen.neg32.length = 6 ∧
+      ∀ i, i < 6 →
+        ofNat b32 (10 ^ 2 ^ i) = Gen.pos32.getD i 0 ∧
+        entryOK b32 (Gen.pos32.getD i 0) (10 ^ 2 ^ i) 1 = true ∧
+        entryOK b32 (Gen.neg32.getD i 0) 1 (10 ^ 2 ^ i) = true ∧
+        interiorOK b32 (Gen.neg32.getD i 0) = true) :=
+  ⟨tables64_ok, tables32_ok⟩
+
+/-- what `entryOK` means (integers, cross-multiplied): a normal positive datum `m·2^e` with
+    `|m·2^e − num/den| ≤ 2^e/2` and `|m·2^e − num/den| ≤ 2^-(mbits+1)·num/den` -/
+theorem tables_entry_meaning {f : Fmt} {bits num den : Nat} (h : entryOK f bits num den = true) :
+    ∃ (m : Nat) (e : Int), decode f bits = .fin false m e ∧ 2 ^ f.mbits ≤ m ∧ m < 2 ^ (f.mbits + 1) ∧
+      (((m * den * 2 ^ e.toNat : Nat) : Int) - ((num * 2 ^ (-e).toNat : Nat) : Int)).natAbs * 2 ≤ den * 2 ^ e.toNat ∧
+      (((m * den * 2 ^ e.toNat : Nat) : Int) - ((num * 2 ^ (-e).toNat : Nat) : Int)).natAbs * 2 ^ (f.mbits + 1)
+        ≤ num * 2 ^ (-e).toNat := entryOK_spec h
+
+/-- the tables over ℚ: every entry is a finite positive datum within `2^-53` (`2^-24`) of its power of ten -/
+theorem tables_rel_error :
+    (∀ i (h : i < pos64.length), ∃ (m : Nat) (e : Int), decode b64 pos64[i] = .fin false m e ∧ m ≠ 0 ∧
+      |qv m e - (10 : ℚ) ^ (2 ^ i)| ≤ 1 / 2 ^ 53 * (10 : ℚ) ^ (2 ^ i)) ∧
+    (∀ i (h : i < neg64.length), ∃ (m : Nat) (e : Int), decode b64 neg64[i] = .fin false m e ∧ m ≠ 0 ∧
+      |qv m e - (1 / 10 : ℚ) ^ (2 ^ i)| ≤ 1 / 2 ^ 53 * (1 / 10 : ℚ) ^ (2 ^ i)) ∧
+    (∀ i (h : i < pos32.length), ∃ (m : Nat) (e : Int), decode b32 pos32[i] = .fin false m e ∧ m ≠ 0 ∧
+      |qv m e - (10 : ℚ) ^ (2 ^ i)| ≤ 1 / 2 ^ 24 * (10 : ℚ) ^ (2 ^ i)) ∧
+    (∀ i (h : i < neg32.length), ∃ (m : Nat) (e : Int), decode b32 neg32[i] = .fin false m e ∧ m ≠ 0 ∧
+      |qv m e - (1 / 10 : ℚ) ^ (2 ^ i)| ≤ 1 / 2 ^ 24 * (1 / 10 : ℚ) ^ (2 ^ i)) :=
+  ⟨pos64_close, neg64_close, pos32_close, neg32_close⟩
+
+-- non-vacuity: 10^256 and 10^-256 (the last binary64 entries), 10^-32 (the last binary32 entry)
+example : ofNat b64 (10 ^ 256) = 0x75154FDD7F73BF3C ∧ entryOK b64 0x75154FDD7F73BF3C (10 ^ 256) 1 = true ∧
+    entryOK b64 0xAC8062864AC6F43 1 (10 ^ 256) = true ∧ entryOK b32 0xA4FB11F 1 (10 ^ 32) = true := by decide +kernel
+-- a wrong last bit is rejected
+example : entryOK b64 0x75154FDD7F73BF3D (10 ^ 256) 1 = false ∧ entryOK b64 0xAC8062864AC6F42 1 (10 ^ 256) = false := by decide +kernel
+
+/-! ## 2. one rounding, one multiplication, `ofNat` -/
+
+/-- integer form: if `m·2^e` is in the normal range, `roundPos` returns a normal datum `m''·2^e''` with
+    `|m''·2^e'' − m·2^e|·2^(mbits+1) ≤ m·2^e` (scaled by `2^-E`) -/
+theorem round_rel_error_int (f : Fmt) (n : Bool) (m : Nat) (e : Int) (hm : m ≠ 0) (hf : 0 < f.emax)
+    (hlo : emin f + f.mbits + 1 ≤ e + ((Nat.log2 m + 1 : Nat) : Int))
+    (hhi : e + ((Nat.log2 m + 1 : Nat) : Int) + f.bias < f.emax) :
+    ∃ (m'' : Nat) (e'' E : Int), decode f (roundPos f n m e) = .fin n m'' e'' ∧
+      2 ^ f.mbits ≤ m'' ∧ m'' < 2 ^ (f.mbits + 1) ∧ E ≤ e ∧ E ≤ e'' ∧
+      (((m'' * 2 ^ (e'' - E).toNat : Nat) : Int) - ((m * 2 ^ (e - E).toNat : Nat) : Int)).natAbs * 2 ^ (f.mbits + 1)
+        ≤ m * 2 ^ (e - E).toNat := roundPos_rel f n m e hm hf hlo hhi
+
+/-- ONE MULTIPLICATION: finite non-zero operands `±m1·2^e1`, `±m2·2^e2` whose exact product lies in
+    `[2^(emin+mbits), 2^(emax-bias-1))` (binary64: `[2^-1022, 2^1023)`; binary32: `[2^-126, 2^127)`) give a finite normal datum
+    with sign = xor of the signs and `|result − a·b| ≤ 2^-(mbits+1)·|a·b|` -/
+theorem mul_rel_error (f : Fmt) (a b : Nat) (n1 n2 : Bool) (m1 m2 : Nat) (e1 e2 : Int) (hf : 0 < f.emax)
+    (ha : decode f a = .fin n1 m1 e1) (hb : decode f b = .fin n2 m2 e2) (h1 : m1 ≠ 0) (h2 : m2 ≠ 0)
+    (hlo : (2 : ℚ) ^ (emin f + f.mbits) ≤ qv m1 e1 * qv m2 e2)
+    (hhi : qv m1 e1 * qv m2 e2 < (2 : ℚ) ^ ((f.emax : Int) - f.bias - 1)) :
+    ∃ (m : Nat) (e : Int), decode f (SF.mul f a b) = .fin (n1 != n2) m e ∧
+      2 ^ f.mbits ≤ m ∧ m < 2 ^ (f.mbits + 1) ∧
+      |qv m e - qv m1 e1 * qv m2 e2| ≤ 1 / 2 ^ (f.mbits + 1) * (qv m1 e1 * qv m2 e2) :=
+  mul_relQ f a b n1 n2 m1 m2 e1 e2 hf ha hb h1 h2 hlo hhi
+
+/-- `ofNat` is within half an ulp (relative `2^-(mbits+1)`) of `n` -/
+theorem ofNat_rel_error (f : Fmt) (n : Nat) (hn : n ≠ 0) (hf : 0 < f.emax)
+    (hlo : (2 : ℚ) ^ (emin f + f.mbits) ≤ (n : ℚ)) (hhi : (n : ℚ) < (2 : ℚ) ^ ((f.emax : Int) - f.bias - 1)) :
+    ∃ (m : Nat) (e : Int), decode f (ofNat f n) = .fin false m e ∧
+      2 ^ f.mbits ≤ m ∧ m < 2 ^ (f.mbits + 1) ∧ |qv m e - (n : ℚ)| ≤ 1 / 2 ^ (f.mbits + 1) * (n : ℚ) :=
+  ofNat_relQ f n hn hf hlo hhi
+
+/-- … and exact below `2^(mbits+1)` -/
+theorem ofNat_exact (f : Fmt) (n : Nat) (hn : n ≠ 0) (hlt : n < 2 ^ (f.mbits + 1)) (hb : 1 ≤ f.bias)
+    (he : f.mbits + f.bias < f.emax) :
+    ∃ (m : Nat) (e : Int), decode f (ofNat f n) = .fin false m e ∧ m ≠ 0 ∧ qv m e = (n : ℚ) :=
+  ofNat_exactQ f n hn hlt hb he
+
+-- non-vacuity: 3 × 0.1 in binary64 = 0x3FD3333333333334 (the famous 0.30000000000000004)
+example : SF.mul b64 0x4008000000000000 0x3FB999999999999A = 0x3FD3333333333334 := by decide +kernel
+example : ∃ (m : Nat) (e : Int), decode b64 (SF.mul b64 0x4008000000000000 0x3FB999999999999A) = .fin false m e ∧
+    2 ^ 52 ≤ m ∧ m < 2 ^ 53 ∧
+    |qv m e - qv 6755399441055744 (-51) * qv 7205759403792794 (-56)| ≤
+      1 / 2 ^ 53 * (qv 6755399441055744 (-51) * qv 7205759403792794 (-56)) := by
+  have ha : decode b64 0x4008000000000000 = .fin false 6755399441055744 (-51) := by decide +kernel
+  have hb : decode b64 0x3FB999999999999A = .fin false 7205759403792794 (-56) := by decide +kernel
+  have hv : qv 6755399441055744 (-51) * qv 7205759403792794 (-56) = 10808639105689191 / 36028797018963968 := by
+    unfold qv; norm_num [zpow_neg]
+  refine mul_rel_error b64 _ _ false false _ _ _ _ (by decide) ha hb (by decide) (by decide) ?_ ?_
+  · rw [hv, emin_b64]
+    calc (2 : ℚ) ^ (-1022 : Int) ≤ (2 : ℚ) ^ (-2 : Int) := zpow_le_zpow_right₀ (by norm_num) (by norm_num)
+      _ ≤ _ := by norm_num
+  · rw [hv, top_b64]
+    calc (10808639105689191 / 36028797018963968 : ℚ) < (2 : ℚ) ^ (0 : Int) := by norm_num
+      _ ≤ (2 : ℚ) ^ (1023 : Int) := zpow_le_zpow_right₀ (by norm_num) (by norm_num)
+
+
+/-! ## 3. the decimal scan -/
+
+/-- SCAN. For the literal `-? ip f e` whose written exponent is below the saturation threshold (`|X| < 100000`),
+    `parseNumber` returns the exact integer (only when there is neither fraction nor exponent), or continues with the last
+    stage `finish neg [] mant E` on a pair `(mant, E)` with `mant ≤ 2^52−1` and
+    `mant·10^E ≤ |v| < (mant+1)·10^E` (truncation: less than one unit of the last kept digit); digits are dropped only
+    once `mant ≥ (2^52−1)/10`, hence the relative truncation error is at most `1/450359962737049 < 2.23e-15`. -/
+theorem scan_error (cfg : Cfg) (neg : Bool) {ip f e : List Byte} (hip : AllDigits ip) (hne : ip ≠ [])
+    (hf : FracPart f) (he : ExpPart e) (hx : (expVal e).natAbs < 100000) :
+    let lit := (if neg then [0x2D] else []) ++ ip ++ f ++ e
+    (f = [] ∧ e = [] ∧ (parseNumber cfg lit = .uint (Digits.decVal ip) ∨ parseNumber cfg lit = .sint (-(Digits.decVal ip : Int)))) ∨
+    ∃ (mant : Nat) (E : Int), parseNumber cfg lit = finish neg [] mant E ∧ mant ≤ 2 ^ 52 - 1 ∧
+      (mant : ℚ) * (10 : ℚ) ^ E ≤ litAbs ip f e ∧ litAbs ip f e < ((mant : ℚ) + 1) * (10 : ℚ) ^ E ∧
+      ((mant : ℚ) * (10 : ℚ) ^ E = litAbs ip f e ∨ (2 ^ 52 - 1) / 10 ≤ mant) ∧
+      (0 < litAbs ip f e → mant ≠ 0 ∧ Close (1 / 450359962737049) ((mant : ℚ) * (10 : ℚ) ^ E) (litAbs ip f e)) := by
+  intro lit
+  rcases parse_scan cfg neg hip hne hf he hx with ⟨h1, h2, h3⟩ | ⟨mant, p, h1, h2, h3⟩
+  · left
+    refine ⟨h1, h2, ?_⟩
+    have : Digits.decVal (ip ++ f.tail) = Digits.decVal ip := by rw [h1]; simp
+    rw [this] at h3; exact h3
+  · right
+    refine ⟨mant, expVal e - (f.tail.length : Nat) + (p : Nat), h1, h3, ?_⟩
+    have hS := ten_zpow_pos (expVal e - (f.tail.length : Int))
+    obtain ⟨q1, q2, q3⟩ := scan_q h2 _ hS
+    rw [scan_exp]
+    unfold litAbs
+    refine ⟨q1, q2, ?_, ?_⟩
+    · obtain ⟨s1, s2, s3⟩ := h2
+      rcases s3 with rfl | s3
+      · left
+        simp at s1 s2
+        have : mant = Digits.decVal (ip ++ f.tail) := by omega
+        rw [this]; simp
+      · right; exact s3
+    · intro hpos
+      apply q3
+      have : (0 : ℚ) < (Digits.decVal (ip ++ f.tail) : ℚ) := pos_of_mul_pos_left hpos hS.le
+      exact_mod_cast this
+
+/-! ## 5. magnitude clauses -/
+
+/-- on the scanned pair: a zero mantissa is `±0` -/
+theorem zero_mantissa_is_zero (neg : Bool) (e : Int) :
+    finish neg [] 0 e = .f32 (negBits b32 neg 0) ∧ decode b32 (negBits b32 neg 0) = .fin neg 0 (-149) :=
+  ⟨finish_zero neg e, zero32_decode neg⟩
+
+/-- on the scanned pair: `e > 308` with a non-zero mantissa is `±inf` -/
+theorem huge_is_inf (neg : Bool) (mant : Nat) (e : Int) (hm : mant ≠ 0) (he : 308 < e) :
+    finish neg [] mant e = .f64 (infBits b64 neg) ∧ decode b64 (infBits b64 neg) = .inf neg :=
+  ⟨finish_huge neg mant e hm he, decode_inf b64 neg⟩
+
+/-- on the scanned pair: `e < -325` is `±0` -/
+theorem tiny_is_zero (neg : Bool) (mant : Nat) (e : Int) (hm : mant ≠ 0) (he : e < -325) :
+    finish neg [] mant e = .f32 (negBits b32 neg 0) ∧ decode b32 (negBits b32 neg 0) = .fin neg 0 (-149) :=
+  ⟨finish_tiny neg mant e hm he, zero32_decode neg⟩
+
+/-- on the value: a literal with `|v| < 10^-325` is `±0` (the integer 0 when it is written as an integer) -/
+theorem tiny_value_is_zero (cfg : Cfg) (neg : Bool) {ip f e : List Byte} (hip : AllDigits ip) (hne : ip ≠ [])
+    (hf : FracPart f) (he : ExpPart e) (hx : (expVal e).natAbs < 100000)
+    (hv : litAbs ip f e < (10 : ℚ) ^ (-325 : Int)) :
+    let lit := (if neg then [0x2D] else []) ++ ip ++ f ++ e
+    parseNumber cfg lit = .uint 0 ∨ parseNumber cfg lit = .sint 0 ∨
+    (parseNumber cfg lit = .f32 (negBits b32 neg 0) ∧ decode b32 (negBits b32 neg 0) = .fin neg 0 (-149)) := by
+  intro lit
+  rcases scan_error cfg neg hip hne hf he hx with ⟨h1, h2, h3⟩ | ⟨mant, E, h1, _, h3, _, _, _⟩
+  · have hN : litAbs ip f e = (Digits.decVal ip : ℚ) := by unfold litAbs; rw [h1, h2]; simp [expVal]
+    have h1' : (10 : ℚ) ^ (-325 : Int) ≤ 1 := zpow_le_one_of_nonpos₀ (by norm_num) (by norm_num)
+    have : (Digits.decVal ip : ℚ) < 1 := by rw [← hN]; linarith
+    have h0 : Digits.decVal ip = 0 := by
+      have : Digits.decVal ip < 1 := by exact_mod_cast this
+      omega
+    rw [h0] at h3
+    rcases h3 with h3 | h3
+    · exact Or.inl h3
+    · exact Or.inr (Or.inl (h3.trans (by simp)))
+  · right; right
+    refine ⟨?_, zero32_decode neg⟩
+    show parseNumber cfg lit = _
+    rw [h1]
+    by_cases hm0 : mant = 0
+    · subst hm0; exact finish_zero neg E
+    · apply finish_tiny neg mant E hm0
+      by_contra hc
+      have hE : (10 : ℚ) ^ (-325 : Int) ≤ (10 : ℚ) ^ E := zpow_le_zpow_right₀ (by norm_num) (by omega)
+      have hmq : (1 : ℚ) ≤ (mant : ℚ) := by exact_mod_cast Nat.pos_of_ne_zero hm0
+      have : (10 : ℚ) ^ E ≤ (mant : ℚ) * (10 : ℚ) ^ E := le_mul_of_one_le_left (ten_zpow_pos E).le hmq
+      linarith
+
+
+/-! ## 4. accuracy of the parsed value -/
+
+theorem abs_sval_sub (neg : Bool) (m : Nat) (ex : Int) (ip f e : List Byte) :
+    |sval neg m ex - litVal neg ip f e| = |qv m ex - litAbs ip f e| := by
+  unfold sval litVal
+  cases neg
+  · simp
+  · have : (if true = true then (-1 : ℚ) else 1) * qv m ex - (if true = true then (-1 : ℚ) else 1) * litAbs ip f e =
+        -(qv m ex - litAbs ip f e) := by simp; ring
+    rw [this, abs_neg]
+
+theorem abs_litVal (neg : Bool) (ip f e : List Byte) (h : 0 ≤ litAbs ip f e) : |litVal neg ip f e| = litAbs ip f e := by
+  unfold litVal
+  cases neg
+  · simp [abs_of_nonneg h]
+  · simp [abs_of_nonneg h]
+
+/-- THE BINARY64 PATH. For every literal `-? ip f e` (exponent below the saturation threshold) whose value `v` satisfies
+    `1e-300 ≤ |v| ≤ 1e300`: `parseNumber` returns the exact integer (integer literals inside the 64-bit ranges), a binary64
+    pattern or a binary32 pattern — never `.invalid`/`.fault`; and WHENEVER it returns a binary64 pattern, that pattern is a
+    FINITE datum, of the sign of the literal, with `|r − v| ≤ 1e-13·|v|` (actual bound proved: `< 4.8e-15`). -/
+theorem parse_double_error (cfg : Cfg) (neg : Bool) {ip f e : List Byte} (hip : AllDigits ip) (hne : ip ≠ [])
+    (hf : FracPart f) (he : ExpPart e) (hx : (expVal e).natAbs < 100000)
+    (hlo : (10 : ℚ) ^ (-300 : Int) ≤ litAbs ip f e) (hhi : litAbs ip f e ≤ (10 : ℚ) ^ (300 : Int)) :
+    let lit := (if neg then [0x2D] else []) ++ ip ++ f ++ e
+    (parseNumber cfg lit = .uint (Digits.decVal ip) ∨ parseNumber cfg lit = .sint (-(Digits.decVal ip : Int)) ∨
+      (∃ bits, parseNumber cfg lit = .f64 bits) ∨ (∃ bits, parseNumber cfg lit = .f32 bits)) ∧
+    ∀ bits, parseNumber cfg lit = .f64 bits →
+      ∃ (m : Nat) (ex : Int), decode b64 bits = .fin neg m ex ∧ m ≠ 0 ∧
+        |sval neg m ex - litVal neg ip f e| ≤ 1 / 10 ^ 13 * |litVal neg ip f e| := by
+  intro lit
+  have hpos : 0 < litAbs ip f e := lt_of_lt_of_le (ten_zpow_pos _) hlo
+  rcases scan_error cfg neg hip hne hf he hx with ⟨_, _, h3⟩ | ⟨mant, E, h1, h2, h3, _, _, h6⟩
+  · constructor
+    · rcases h3 with h3 | h3
+      · exact Or.inl h3
+      · exact Or.inr (Or.inl h3)
+    · intro bits hb
+      rcases h3 with h3 | h3 <;> · rw [h3] at hb; cases hb
+  · obtain ⟨hm0, hcl⟩ := h6 hpos
+    have hlt : mant < 2 ^ 53 := by omega
+    have hge := hcl.ge
+    have hmlo : (2 : ℚ) ^ (-1000 : Int) ≤ (mant : ℚ) * (10 : ℚ) ^ E := by
+      have : litAbs ip f e / 2 ≤ (mant : ℚ) * (10 : ℚ) ^ E := by
+        have : (1 / 2 : ℚ) ≤ 1 - 1 / 450359962737049 := by norm_num
+        nlinarith
+      have h4 := big_num_4
+      linarith
+    have hmhi : (mant : ℚ) * (10 : ℚ) ^ E ≤ (2 : ℚ) ^ (1000 : Int) := le_trans h3 (le_trans hhi big_num_3)
+    obtain ⟨hk, hacc⟩ := finish_f64_close neg mant E hm0 hlt hmlo hmhi
+    show (parseNumber cfg lit = _ ∨ parseNumber cfg lit = _ ∨ _ ∨ _) ∧ ∀ bits, parseNumber cfg lit = .f64 bits → _
+    rw [h1]
+    refine ⟨Or.inr (Or.inr hk), ?_⟩
+    intro bits hb
+    obtain ⟨m, ex, hdec, hm, hc⟩ := hacc bits hb
+    refine ⟨m, ex, hdec, hm, ?_⟩
+    have hmp : 0 < (mant : ℚ) * (10 : ℚ) ^ E := lt_of_lt_of_le (two_zpow_pos _) hmlo
+    have := (hc.trans hcl hpos (by norm_num) (by norm_num)).mono hpos.le
+      (by norm_num : (45 / 2 ^ 54 + 1 / 450359962737049 + 45 / 2 ^ 54 * (1 / 450359962737049) : ℚ) ≤ 1 / 10 ^ 13)
+    rw [abs_sval_sub, abs_litVal neg ip f e hpos.le]
+    exact this
+
+/-- "MORE THAN SEVEN SIGNIFICANT DIGITS ⇒ binary64": if the number written by all the digits exceeds `2^23−1 = 8388607`
+    (in particular if it has eight or more significant digits) and `1e-300 ≤ |v| ≤ 1e300`, the result is never a binary32
+    pattern (it is an exact integer or, by `parse_double_error`, a binary64 pattern within `1e-13`). -/
+theorem many_digits_double (cfg : Cfg) (neg : Bool) {ip f e : List Byte} (hip : AllDigits ip) (hne : ip ≠ [])
+    (hf : FracPart f) (he : ExpPart e) (hx : (expVal e).natAbs < 100000)
+    (hN : 8388607 < Digits.decVal (ip ++ f.tail))
+    (hlo : (10 : ℚ) ^ (-300 : Int) ≤ litAbs ip f e) (hhi : litAbs ip f e ≤ (10 : ℚ) ^ (300 : Int)) :
+    ∀ bits, parseNumber cfg ((if neg then [0x2D] else []) ++ ip ++ f ++ e) ≠ .f32 bits := by
+  intro bits hb
+  have hpos : 0 < litAbs ip f e := lt_of_lt_of_le (ten_zpow_pos _) hlo
+  rcases parse_scan cfg neg hip hne hf he hx with ⟨_, _, h3⟩ | ⟨mant, p, h1, h2, h3⟩
+  · rcases h3 with h3 | h3 <;> · rw [h3] at hb; cases hb
+  · have hmant : 8388607 < mant := by
+      obtain ⟨s1, s2, s3⟩ := h2
+      rcases s3 with rfl | s3
+      · simp at s1 s2; omega
+      · have : Gen.mantissa_max64 / 10 = 450359962737049 := by decide
+        omega
+    have hm0 : mant ≠ 0 := by omega
+    have hlt : mant < 2 ^ 53 := by
+      have : Gen.mantissa_max64 = 4503599627370495 := rfl
+      omega
+    obtain ⟨q1, _, q3⟩ := scan_q h2 _ (ten_zpow_pos (expVal e - (f.tail.length : Int)))
+    rw [← scan_exp] at q1 q3
+    have hN0 : 0 < Digits.decVal (ip ++ f.tail) := by omega
+    obtain ⟨_, hcl⟩ := q3 hN0
+    have hge := hcl.ge
+    have hmlo : (2 : ℚ) ^ (-1000 : Int) ≤ (mant : ℚ) * (10 : ℚ) ^ (expVal e - (f.tail.length : Int) + (p : Int)) := by
+      have : litAbs ip f e / 2 ≤ (mant : ℚ) * (10 : ℚ) ^ (expVal e - (f.tail.length : Int) + (p : Int)) := by
+        have : (1 / 2 : ℚ) ≤ 1 - 1 / 450359962737049 := by norm_num
+        unfold litAbs
+        have hp : 0 < (Digits.decVal (ip ++ f.tail) : ℚ) * (10 : ℚ) ^ (expVal e - (f.tail.length : Int)) := hpos
+        nlinarith
+      have h4 := big_num_4
+      linarith
+    have hmhi : (mant : ℚ) * (10 : ℚ) ^ (expVal e - (f.tail.length : Int) + (p : Int)) ≤ (2 : ℚ) ^ (1000 : Int) :=
+      le_trans q1 (le_trans hhi big_num_3)
+    have e1 := exp_ge_of mant _ hlt hmlo
+    have e2 := exp_le_of mant _ hm0 hmhi
+    rw [h1, finish_mid neg mant _ hm0 e1 e2, if_pos (Or.inr (Or.inr hmant))] at hb
+    split at hb <;> cases hb
+
+/-! ## 4b. no upper bound: "never a finite value of the wrong magnitude", and overflow to infinity -/
+
+/-- For every literal with `|v| ≥ 1e-300` (NO upper bound): whenever `parseNumber` returns a binary64 pattern, it is the
+    infinity of the sign of the literal, or a finite datum of that sign with `|r − v| ≤ 1e-13·|v|`.
+    So above `1e300` the result is never a finite value of the wrong magnitude. -/
+theorem parse_double_error_or_inf (cfg : Cfg) (neg : Bool) {ip f e : List Byte} (hip : AllDigits ip) (hne : ip ≠ [])
+    (hf : FracPart f) (he : ExpPart e) (hx : (expVal e).natAbs < 100000)
+    (hlo : (10 : ℚ) ^ (-300 : Int) ≤ litAbs ip f e) :
+    let lit := (if neg then [0x2D] else []) ++ ip ++ f ++ e
+    (parseNumber cfg lit = .uint (Digits.decVal ip) ∨ parseNumber cfg lit = .sint (-(Digits.decVal ip : Int)) ∨
+      (∃ bits, parseNumber cfg lit = .f64 bits) ∨ (∃ bits, parseNumber cfg lit = .f32 bits)) ∧
+    ∀ bits, parseNumber cfg lit = .f64 bits →
+      decode b64 bits = .inf neg ∨
+      ∃ (m : Nat) (ex : Int), decode b64 bits = .fin neg m ex ∧ m ≠ 0 ∧
+        |sval neg m ex - litVal neg ip f e| ≤ 1 / 10 ^ 13 * |litVal neg ip f e| := by
+  intro lit
+  have hpos : 0 < litAbs ip f e := lt_of_lt_of_le (ten_zpow_pos _) hlo
+  rcases scan_error cfg neg hip hne hf he hx with ⟨_, _, h3⟩ | ⟨mant, E, h1, h2, h3, _, _, h6⟩
+  · constructor
+    · rcases h3 with h3 | h3
+      · exact Or.inl h3
+      · exact Or.inr (Or.inl h3)
+    · intro bits hb
+      rcases h3 with h3 | h3 <;> · rw [h3] at hb; cases hb
+  · obtain ⟨hm0, hcl⟩ := h6 hpos
+    have hlt : mant < 2 ^ 53 := by omega
+    have hge := hcl.ge
+    have hmlo : (2 : ℚ) ^ (-1000 : Int) ≤ (mant : ℚ) * (10 : ℚ) ^ E := by
+      have : litAbs ip f e / 2 ≤ (mant : ℚ) * (10 : ℚ) ^ E := by
+        have : (1 / 2 : ℚ) ≤ 1 - 1 / 450359962737049 := by norm_num
+        nlinarith
+      have h4 := big_num_4
+      linarith
+    obtain ⟨hk, hacc⟩ := finish_f64_or_inf neg mant E hm0 hlt hmlo
+    show (parseNumber cfg lit = _ ∨ parseNumber cfg lit = _ ∨ _ ∨ _) ∧ ∀ bits, parseNumber cfg lit = .f64 bits → _
+    rw [h1]
+    refine ⟨Or.inr (Or.inr hk), ?_⟩
+    intro bits hb
+    rcases hacc bits hb with hi | ⟨m, ex, hdec, hm, hc⟩
+    · exact Or.inl hi
+    · right
+      refine ⟨m, ex, hdec, hm, ?_⟩
+      have := (hc.trans hcl hpos (by norm_num) (by norm_num)).mono hpos.le
+        (by norm_num : (45 / 2 ^ 54 + 1 / 450359962737049 + 45 / 2 ^ 54 * (1 / 450359962737049) : ℚ) ≤ 1 / 10 ^ 13)
+      rw [abs_sval_sub, abs_litVal neg ip f e hpos.le]
+      exact this
+
+/-- MAGNITUDE, upper side: every literal with `|v| ≥ 10^309` parses to the infinity of its sign — through the range test
+    `e > 308`, or (e.g. "15e308", "123456e304") through the overflow of the last multiplication of `make_float`. -/
+theorem huge_value_is_inf (cfg : Cfg) (neg : Bool) {ip f e : List Byte} (hip : AllDigits ip) (hne : ip ≠ [])
+    (hf : FracPart f) (he : ExpPart e) (hx : (expVal e).natAbs < 100000)
+    (hv : (10 : ℚ) ^ (309 : Int) ≤ litAbs ip f e) :
+    ∃ bits, parseNumber cfg ((if neg then [0x2D] else []) ++ ip ++ f ++ e) = .f64 bits ∧ decode b64 bits = .inf neg := by
+  have hpos : 0 < litAbs ip f e := lt_of_lt_of_le (ten_zpow_pos _) hv
+  rcases scan_error cfg neg hip hne hf he hx with ⟨h1, h2, h3⟩ | ⟨mant, E, h1, h2, _, _, _, h6⟩
+  · exfalso
+    have hN : litAbs ip f e = (Digits.decVal ip : ℚ) := by unfold litAbs; rw [h1, h2]; simp [expVal]
+    have hlt : Digits.decVal ip ≤ 2 ^ 64 := by
+      rcases h3 with h3 | h3
+      · exact (uint_result_range cfg _ _ h3).le
+      · have := (sint_result_range cfg _ _ h3).1; omega
+    have : (Digits.decVal ip : ℚ) ≤ 2 ^ 64 := by exact_mod_cast hlt
+    have h309 : (2 : ℚ) ^ 64 < (10 : ℚ) ^ (309 : Int) := by
+      calc (2 : ℚ) ^ 64 < (10 : ℚ) ^ (20 : Int) := by norm_num
+        _ ≤ (10 : ℚ) ^ (309 : Int) := zpow_le_zpow_right₀ (by norm_num) (by norm_num)
+    rw [hN] at hv
+    exact absurd (lt_of_le_of_lt hv (lt_of_le_of_lt this h309)) (lt_irrefl _)
+  · obtain ⟨hm0, hcl⟩ := h6 hpos
+    have hlt : mant < 2 ^ 53 := by omega
+    rw [h1]
+    apply finish_huge_value neg mant E hm0 hlt
+    have hge := hcl.ge
+    have hd : (1 / 2 : ℚ) ≤ 1 - 1 / 450359962737049 := by norm_num
+    have h2' : litAbs ip f e / 2 ≤ (mant : ℚ) * (10 : ℚ) ^ E := by
+      have := mul_le_mul_of_nonneg_right hd hpos.le
+      clear hv
+      linarith
+    exact le_trans big_num_5 (le_trans (div_le_div_of_nonneg_right hv (by norm_num)) h2')
+
+/-- THE BINARY32 PATH. For every literal with `|v| ≥ 1e-300` (no upper bound): whenever `parseNumber` returns a binary32
+    pattern it is a FINITE datum (never an infinity: an overflowing binary32 computation is redone in binary64) of the sign of
+    the literal with `|r − v| ≤ 1e-6·|v|`. The binary32 path is taken only for mantissas `≤ 2^23−1` (at most seven
+    significant digits) and `|e| ≤ 38`; its two subnormal cases (`1e-38`, `2e-38`) are checked by evaluation. -/
+theorem parse_float_error (cfg : Cfg) (neg : Bool) {ip f e : List Byte} (hip : AllDigits ip) (hne : ip ≠ [])
+    (hf : FracPart f) (he : ExpPart e) (hx : (expVal e).natAbs < 100000)
+    (hlo : (10 : ℚ) ^ (-300 : Int) ≤ litAbs ip f e) :
+    let lit := (if neg then [0x2D] else []) ++ ip ++ f ++ e
+    ∀ bits, parseNumber cfg lit = .f32 bits →
+      ∃ (m : Nat) (ex : Int), decode b32 bits = .fin neg m ex ∧ m ≠ 0 ∧
+        |sval neg m ex - litVal neg ip f e| ≤ 1 / 10 ^ 6 * |litVal neg ip f e| := by
+  intro lit bits hb
+  have hpos : 0 < litAbs ip f e := lt_of_lt_of_le (ten_zpow_pos _) hlo
+  rcases scan_error cfg neg hip hne hf he hx with ⟨_, _, h3⟩ | ⟨mant, E, h1, h2, h3, _, _, h6⟩
+  · rcases h3 with h3 | h3 <;> · rw [h3] at hb; cases hb
+  · obtain ⟨hm0, hcl⟩ := h6 hpos
+    have hlt : mant < 2 ^ 53 := by omega
+    have hge := hcl.ge
+    have hmlo : (2 : ℚ) ^ (-1000 : Int) ≤ (mant : ℚ) * (10 : ℚ) ^ E := by
+      have : litAbs ip f e / 2 ≤ (mant : ℚ) * (10 : ℚ) ^ E := by
+        have : (1 / 2 : ℚ) ≤ 1 - 1 / 450359962737049 := by norm_num
+        nlinarith
+      have h4 := big_num_4
+      linarith
+    change parseNumber cfg lit = .f32 bits at hb
+    rw [h1] at hb
+    obtain ⟨m, ex, hdec, hm, hc⟩ := finish_f32_full neg mant E hm0 hlt hmlo bits hb
+    refine ⟨m, ex, hdec, hm, ?_⟩
+    have := (hc.trans hcl hpos (by norm_num) (by norm_num)).mono hpos.le
+      (by norm_num : (9 / 10 ^ 7 + 1 / 450359962737049 + 9 / 10 ^ 7 * (1 / 450359962737049) : ℚ) ≤ 1 / 10 ^ 6)
+    rw [abs_sval_sub, abs_litVal neg ip f e hpos.le]
+    exact this
+
+/-! ## 6. saturated exponents, and the clauses without the hypothesis on the exponent -/
+
+/-- SATURATION IS HARMLESS for literals of at most 99000 digits: when the written exponent is `≥ 100000` (the model freezes
+    its accumulator there) and some digit is non-zero, the value is `≥ 10^1000` and the result is `±inf`; when it is `≤ -100000`
+    the value is `< 10^-1000` and the result is `±0`. -/
+theorem saturated_exponent (cfg : Cfg) (neg : Bool) {ip f e : List Byte} (hip : AllDigits ip) (hne : ip ≠ [])
+    (hf : FracPart f) (he : ExpPart e) (hD : ip.length + f.tail.length ≤ 99000) :
+    let lit := (if neg then [0x2D] else []) ++ ip ++ f ++ e
+    (100000 ≤ expVal e → Digits.decVal (ip ++ f.tail) ≠ 0 →
+      parseNumber cfg lit = .f64 (infBits b64 neg) ∧ (10 : ℚ) ^ (1000 : Int) ≤ litAbs ip f e) ∧
+    (expVal e ≤ -100000 →
+      parseNumber cfg lit = .f32 (negBits b32 neg 0) ∧ litAbs ip f e < (10 : ℚ) ^ (-1000 : Int)) := by
+  intro lit
+  have hfd : AllDigits f.tail := by
+    rcases hf with rfl | ⟨ds, hds, rfl⟩
+    · exact AllDigits_nil
+    · exact hds.2
+  have hall : AllDigits (ip ++ f.tail) := AllDigits_append.mpr ⟨hip, hfd⟩
+  have hNlt : Digits.decVal (ip ++ f.tail) < 10 ^ (ip.length + f.tail.length) := by
+    have := (decValAux_lt 0 (ip ++ f.tail) hall).1
+    simpa [Digits.decVal, List.length_append] using this
+  have hS := ten_zpow_pos (expVal e - (f.tail.length : Int))
+  constructor
+  · intro hX hN
+    have hval : (10 : ℚ) ^ (1000 : Int) ≤ litAbs ip f e := by
+      unfold litAbs
+      have h1 : (1 : ℚ) ≤ (Digits.decVal (ip ++ f.tail) : ℚ) := by exact_mod_cast Nat.pos_of_ne_zero hN
+      have h2 : (10 : ℚ) ^ (1000 : Int) ≤ (10 : ℚ) ^ (expVal e - (f.tail.length : Int)) :=
+        zpow_le_zpow_right₀ (by norm_num) (by omega)
+      exact le_trans h2 (le_mul_of_one_le_left hS.le h1)
+    refine ⟨?_, hval⟩
+    rcases parse_scan_gen cfg neg hip hne hf he with ⟨_, h2, _⟩ | ⟨X', mant, p, hX', h1, h2, _⟩
+    · rw [h2] at hX; simp [expVal] at hX
+    · show parseNumber cfg lit = _
+      rw [h1]
+      have hm0 : mant ≠ 0 := by
+        rintro rfl
+        obtain ⟨_, s2, s3⟩ := h2
+        rcases s3 with rfl | s3
+        · simp at s2; omega
+        · have : Gen.mantissa_max64 / 10 = 450359962737049 := by decide
+          omega
+      apply finish_huge neg mant _ hm0
+      have := (hX'.2.1 hX).1
+      omega
+  · intro hX
+    have hval : litAbs ip f e < (10 : ℚ) ^ (-1000 : Int) := by
+      unfold litAbs
+      have h1 : (Digits.decVal (ip ++ f.tail) : ℚ) < ((10 ^ (ip.length + f.tail.length) : Nat) : ℚ) := by exact_mod_cast hNlt
+      have h2 : ((10 ^ (ip.length + f.tail.length) : Nat) : ℚ) * (10 : ℚ) ^ (expVal e - (f.tail.length : Int)) ≤
+          (10 : ℚ) ^ (-1000 : Int) := by
+        push_cast
+        rw [← zpow_natCast, ← zpow_add₀ (by norm_num : (10 : ℚ) ≠ 0)]
+        exact zpow_le_zpow_right₀ (by norm_num) (by push_cast; omega)
+      exact lt_of_lt_of_le (mul_lt_mul_of_pos_right h1 hS) h2
+    refine ⟨?_, hval⟩
+    rcases parse_scan_gen cfg neg hip hne hf he with ⟨_, h2, _⟩ | ⟨X', mant, p, hX', h1, h2, _⟩
+    · rw [h2] at hX; simp [expVal] at hX
+    · show parseNumber cfg lit = _
+      rw [h1]
+      by_cases hm0 : mant = 0
+      · subst hm0; exact finish_zero neg _
+      · apply finish_tiny neg mant _ hm0
+        have hp : p < ip.length + f.tail.length := by
+          obtain ⟨s1, _, _⟩ := h2
+          have : 10 ^ p ≤ mant * 10 ^ p := Nat.le_mul_of_pos_left _ (Nat.pos_of_ne_zero hm0)
+          have : 10 ^ p < 10 ^ (ip.length + f.tail.length) := by omega
+          exact (Nat.pow_lt_pow_iff_right (by decide : 1 < 10)).mp this
+        have := (hX'.2.2 hX).2
+        omega
+
+/-- CAPSTONE (no hypothesis on the exponent; literals of at most 99000 digits, which includes every literal the
+    deserializer can buffer (63 bytes) and every string `JsonVariant` can hold (65535 bytes)).
+    For the literal `-? ip f e` with exact value `v`:
+    * `1e-300 ≤ |v|`: the result is an exact integer, a binary64 or a binary32 pattern; a binary64 pattern is `±inf` of the
+      right sign or finite within `1e-13·|v|`; a binary32 pattern is finite within `1e-6·|v|`;
+    * `1e-300 ≤ |v| ≤ 1e300`: moreover no infinity: a binary64 pattern is finite within `1e-13·|v|`;
+    * `|v| ≥ 1e309`: `±inf`;   * `|v| < 1e-325`: `±0` (or the integer 0). -/
+theorem float_clauses (cfg : Cfg) (neg : Bool) {ip f e : List Byte} (hip : AllDigits ip) (hne : ip ≠ [])
+    (hf : FracPart f) (he : ExpPart e) (hD : ip.length + f.tail.length ≤ 99000) :
+    let lit := (if neg then [0x2D] else []) ++ ip ++ f ++ e
+    ((10 : ℚ) ^ (-300 : Int) ≤ litAbs ip f e →
+      (parseNumber cfg lit = .uint (Digits.decVal ip) ∨ parseNumber cfg lit = .sint (-(Digits.decVal ip : Int)) ∨
+        (∃ bits, parseNumber cfg lit = .f64 bits) ∨ (∃ bits, parseNumber cfg lit = .f32 bits)) ∧
+      (∀ bits, parseNumber cfg lit = .f64 bits →
+        (decode b64 bits = .inf neg ∧ (10 : ℚ) ^ (300 : Int) < litAbs ip f e) ∨
+        ∃ (m : Nat) (ex : Int), decode b64 bits = .fin neg m ex ∧ m ≠ 0 ∧
+          |sval neg m ex - litVal neg ip f e| ≤ 1 / 10 ^ 13 * |litVal neg ip f e|) ∧
+      (∀ bits, parseNumber cfg lit = .f32 bits →
+        ∃ (m : Nat) (ex : Int), decode b32 bits = .fin neg m ex ∧ m ≠ 0 ∧
+          |sval neg m ex - litVal neg ip f e| ≤ 1 / 10 ^ 6 * |litVal neg ip f e|)) ∧
+    ((10 : ℚ) ^ (309 : Int) ≤ litAbs ip f e →
+      ∃ bits, parseNumber cfg lit = .f64 bits ∧ decode b64 bits = .inf neg) ∧
+    (litAbs ip f e < (10 : ℚ) ^ (-325 : Int) →
+      parseNumber cfg lit = .uint 0 ∨ parseNumber cfg lit = .sint 0 ∨
+      (parseNumber cfg lit = .f32 (negBits b32 neg 0) ∧ decode b32 (negBits b32 neg 0) = .fin neg 0 (-149))) := by
+  intro lit
+  obtain ⟨hsatHi, hsatLo⟩ := saturated_exponent cfg neg hip hne hf he hD
+  have hNpos : 0 < litAbs ip f e → Digits.decVal (ip ++ f.tail) ≠ 0 := by
+    intro h h0; unfold litAbs at h; rw [h0] at h; simp at h
+  have h300 : (10 : ℚ) ^ (300 : Int) < (10 : ℚ) ^ (1000 : Int) := zpow_lt_zpow_right₀ (by norm_num) (by norm_num)
+  have hm1000 : (10 : ℚ) ^ (-1000 : Int) < (10 : ℚ) ^ (-325 : Int) := zpow_lt_zpow_right₀ (by norm_num) (by norm_num)
+  have hm1000' : (10 : ℚ) ^ (-1000 : Int) < (10 : ℚ) ^ (-300 : Int) := zpow_lt_zpow_right₀ (by norm_num) (by norm_num)
+  by_cases hx : (expVal e).natAbs < 100000
+  · -- the written exponent is the one the model uses
+    refine ⟨?_, huge_value_is_inf cfg neg hip hne hf he hx, tiny_value_is_zero cfg neg hip hne hf he hx⟩
+    intro hlo
+    obtain ⟨hk, h64⟩ := parse_double_error_or_inf cfg neg hip hne hf he hx hlo
+    refine ⟨hk, ?_, parse_float_error cfg neg hip hne hf he hx hlo⟩
+    intro bits hb
+    by_cases hhi : litAbs ip f e ≤ (10 : ℚ) ^ (300 : Int)
+    · exact Or.inr ((parse_double_error cfg neg hip hne hf he hx hlo hhi).2 bits hb)
+    · rcases h64 bits hb with hi | hfin
+      · exact Or.inl ⟨hi, lt_of_not_ge hhi⟩
+      · exact Or.inr hfin
+  · rcases Int.le_total 0 (expVal e) with hs | hs
+    · -- saturated upwards
+      have hX : 100000 ≤ expVal e := by omega
+      refine ⟨?_, ?_, ?_⟩
+      · intro hlo
+        have hpos : 0 < litAbs ip f e := lt_of_lt_of_le (ten_zpow_pos _) hlo
+        obtain ⟨hres, hval⟩ := hsatHi hX (hNpos hpos)
+        refine ⟨Or.inr (Or.inr (Or.inl ⟨_, hres⟩)), ?_, ?_⟩
+        · intro bits hb
+          rw [hres] at hb; cases hb
+          exact Or.inl ⟨decode_inf b64 neg, lt_of_lt_of_le h300 hval⟩
+        · intro bits hb; rw [hres] at hb; cases hb
+      · intro hv
+        have hpos : 0 < litAbs ip f e := lt_of_lt_of_le (ten_zpow_pos _) hv
+        obtain ⟨hres, _⟩ := hsatHi hX (hNpos hpos)
+        exact ⟨_, hres, decode_inf b64 neg⟩
+      · intro hv
+        by_cases hN : Digits.decVal (ip ++ f.tail) = 0
+        · -- all digits zero: the mantissa is zero whatever the exponent
+          rcases parse_scan_gen cfg neg hip hne hf he with ⟨_, h2, _⟩ | ⟨X', mant, p, _, h1, h2, _⟩
+          · rw [h2] at hX; simp [expVal] at hX
+          · right; right
+            refine ⟨?_, zero32_decode neg⟩
+            show parseNumber cfg lit = _
+            have : mant = 0 := by
+              obtain ⟨s1, _, _⟩ := h2
+              rw [hN] at s1
+              have : 0 < 10 ^ p := Nat.pow_pos (by decide)
+              rcases Nat.eq_zero_or_pos mant with h | h
+              · exact h
+              · have := Nat.mul_pos h this; omega
+            rw [h1, this]; exact finish_zero neg _
+        · exfalso
+          obtain ⟨_, hval⟩ := hsatHi hX hN
+          have : (10 : ℚ) ^ (-325 : Int) < (10 : ℚ) ^ (1000 : Int) := zpow_lt_zpow_right₀ (by norm_num) (by norm_num)
+          exact absurd (lt_trans (lt_of_le_of_lt hval hv) this) (lt_irrefl _)
+    · -- saturated downwards
+      have hX : expVal e ≤ -100000 := by omega
+      obtain ⟨hres, hval⟩ := hsatLo hX
+      refine ⟨?_, ?_, ?_⟩
+      · intro hlo
+        exact absurd (lt_trans (lt_of_le_of_lt hlo hval) hm1000') (lt_irrefl _)
+      · intro hv
+        have : (10 : ℚ) ^ (-1000 : Int) < (10 : ℚ) ^ (309 : Int) := zpow_lt_zpow_right₀ (by norm_num) (by norm_num)
+        exact absurd (lt_trans (lt_of_le_of_lt hv hval) this) (lt_irrefl _)
+      · intro _
+        exact Or.inr (Or.inr ⟨hres, zero32_decode neg⟩)
+
+/-! ## non-vacuity -/
+
+-- the model on "1e23", "0.1" (binary32 path), "123456789012345678e-5" (binary64 path, 18 digits: two are truncated),
+-- "15e308" (passes the range test, overflows in the last multiplication), "1e-38" (binary32 subnormal)
+example : parseNumber {} [0x31,0x65,0x32,0x33] = .f32 0x65A96817 := by decide +kernel
+example : parseNumber {} [0x30,0x2E,0x31] = .f32 0x3DCCCCCD := by decide +kernel
+example : parseNumber {} [0x31,0x32,0x33,0x34,0x35,0x36,0x37,0x38,0x39,0x30,0x31,0x32,0x33,0x34,0x35,0x36,0x37,0x38,0x65,0x2D,0x35]
+    = .f64 4787879594345412428 := by decide +kernel
+example : parseNumber {} [0x31,0x35,0x65,0x33,0x30,0x38] = .f64 (infBits b64 false) := by decide +kernel
+example : parseNumber {} [0x31,0x65,0x2D,0x33,0x38] = .f32 7136239 := by decide +kernel
+
+private theorem exp_m5 : ExpPart [0x65,0x2D,0x35] :=
+  Or.inr ⟨0x65, [0x2D], [0x35], Or.inl rfl, Or.inr (Or.inr rfl), ⟨by decide, by decide⟩, rfl⟩
+
+/-- `parse_double_error` on "123456789012345678e-5" = 1234567890123.45678: the result 0x4272_3A4A_8CAC_B745… is within 1e-13 -/
+example : ∃ (m : Nat) (ex : Int), decode b64 4787879594345412428 = .fin false m ex ∧ m ≠ 0 ∧
+    |sval false m ex - 123456789012345678 / 10 ^ 5| ≤ 1 / 10 ^ 13 * |(123456789012345678 / 10 ^ 5 : ℚ)| := by
+  have hip : AllDigits [0x31,0x32,0x33,0x34,0x35,0x36,0x37,0x38,0x39,0x30,0x31,0x32,0x33,0x34,0x35,0x36,0x37,0x38] := by unfold AllDigits; decide
+  have hv : litAbs [0x31,0x32,0x33,0x34,0x35,0x36,0x37,0x38,0x39,0x30,0x31,0x32,0x33,0x34,0x35,0x36,0x37,0x38] [] [0x65,0x2D,0x35]
+      = 123456789012345678 / 10 ^ 5 := by
+    unfold litAbs
+    rw [show Digits.decVal ([0x31,0x32,0x33,0x34,0x35,0x36,0x37,0x38,0x39,0x30,0x31,0x32,0x33,0x34,0x35,0x36,0x37,0x38] ++ ([] : List Byte).tail)
+        = 123456789012345678 from by decide +kernel,
+      show expVal [0x65,0x2D,0x35] - ((([] : List Byte).tail.length : Nat) : Int) = -5 from by decide +kernel]
+    norm_num [zpow_neg]
+  have hlv : litVal false [0x31,0x32,0x33,0x34,0x35,0x36,0x37,0x38,0x39,0x30,0x31,0x32,0x33,0x34,0x35,0x36,0x37,0x38] [] [0x65,0x2D,0x35]
+      = 123456789012345678 / 10 ^ 5 := by unfold litVal; rw [hv]; simp
+  have := (parse_double_error {} false hip (by simp) (Or.inl rfl) exp_m5 (by decide +kernel)
+    (by rw [hv]
+        calc (10 : ℚ) ^ (-300 : Int) ≤ 1 := zpow_le_one_of_nonpos₀ (by norm_num) (by norm_num)
+          _ ≤ _ := by norm_num)
+    (by rw [hv]
+        calc (123456789012345678 / 10 ^ 5 : ℚ) ≤ (10 : ℚ) ^ (18 : Int) := by norm_num
+          _ ≤ (10 : ℚ) ^ (300 : Int) := zpow_le_zpow_right₀ (by norm_num) (by norm_num))).2
+    4787879594345412428 (by decide +kernel)
+  rw [hlv] at this
+  exact this
+
+/-- `parse_float_error` on "0.1": the binary32 result 0x3DCCCCCD is within 1e-6 of 1/10 -/
+example : ∃ (m : Nat) (ex : Int), decode b32 0x3DCCCCCD = .fin false m ex ∧ m ≠ 0 ∧
+    |sval false m ex - 1 / 10| ≤ 1 / 10 ^ 6 * |(1 / 10 : ℚ)| := by
+  have hv : litAbs [0x30] [0x2E,0x31] [] = 1 / 10 := by
+    unfold litAbs
+    rw [show Digits.decVal ([0x30] ++ ([0x2E,0x31] : List Byte).tail) = 1 from by decide +kernel,
+      show expVal [] - ((([0x2E,0x31] : List Byte).tail.length : Nat) : Int) = -1 from by decide +kernel]
+    norm_num
+  have hlv : litVal false [0x30] [0x2E,0x31] [] = 1 / 10 := by unfold litVal; rw [hv]; simp
+  have := parse_float_error {} false (ip := [0x30]) (f := [0x2E,0x31]) (e := []) (by unfold AllDigits; decide) (by simp)
+    (Or.inr ⟨[0x31], ⟨by decide, by decide⟩, rfl⟩) (Or.inl rfl) (by decide +kernel)
+    (by rw [hv]
+        calc (10 : ℚ) ^ (-300 : Int) ≤ (10 : ℚ) ^ (-1 : Int) := zpow_le_zpow_right₀ (by norm_num) (by norm_num)
+          _ ≤ _ := by norm_num)
+    0x3DCCCCCD (by decide +kernel)
+  rw [hlv] at this
+  exact this
+
+private theorem exp_m400 : ExpPart [0x65,0x2D,0x34,0x30,0x30] :=
+  Or.inr ⟨0x65, [0x2D], [0x34,0x30,0x30], Or.inl rfl, Or.inr (Or.inr rfl), ⟨by decide, by decide⟩, rfl⟩
+
+private theorem exp_308 : ExpPart [0x65,0x33,0x30,0x38] :=
+  Or.inr ⟨0x65, [], [0x33,0x30,0x38], Or.inl rfl, Or.inl rfl, ⟨by decide, by decide⟩, rfl⟩
+
+/-- `huge_value_is_inf` on "-15e308" (decimal exponent 308 passes the range test; the last multiplication overflows),
+    `tiny_value_is_zero` on "-1e-400" -/
+example : ∃ bits, parseNumber {} [0x2D,0x31,0x35,0x65,0x33,0x30,0x38] = .f64 bits ∧ decode b64 bits = .inf true := by
+  have hv : litAbs [0x31,0x35] [] [0x65,0x33,0x30,0x38] = 15 * (10 : ℚ) ^ (308 : Int) := by
+    unfold litAbs
+    rw [show Digits.decVal ([0x31,0x35] ++ ([] : List Byte).tail) = 15 from by decide +kernel,
+      show expVal [0x65,0x33,0x30,0x38] - ((([] : List Byte).tail.length : Nat) : Int) = 308 from by decide +kernel]
+    simp
+  exact huge_value_is_inf {} true (ip := [0x31,0x35]) (f := []) (e := [0x65,0x33,0x30,0x38]) (by unfold AllDigits; decide) (by simp)
+    (Or.inl rfl) exp_308 (by decide +kernel)
+    (by rw [hv, show (309 : Int) = 1 + 308 from rfl, zpow_add₀ (by norm_num : (10 : ℚ) ≠ 0)]
+        exact mul_le_mul_of_nonneg_right (by norm_num) (ten_zpow_pos _).le)
+example : parseNumber {} [0x2D,0x31,0x65,0x2D,0x34,0x30,0x30] = .f32 (negBits b32 true 0) := by
+  have hv : litAbs [0x31] [] [0x65,0x2D,0x34,0x30,0x30] = (10 : ℚ) ^ (-400 : Int) := by
+    unfold litAbs
+    rw [show Digits.decVal ([0x31] ++ ([] : List Byte).tail) = 1 from by decide +kernel,
+      show expVal [0x65,0x2D,0x34,0x30,0x30] - ((([] : List Byte).tail.length : Nat) : Int) = -400 from by decide +kernel]
+    simp
+  rcases tiny_value_is_zero {} true (ip := [0x31]) (f := []) (e := [0x65,0x2D,0x34,0x30,0x30]) (by unfold AllDigits; decide) (by simp)
+    (Or.inl rfl) exp_m400 (by decide +kernel)
+    (by rw [hv]; exact zpow_lt_zpow_right₀ (by norm_num) (by norm_num)) with h | h | h
+  · exact absurd h (by decide +kernel)
+  · exact absurd h (by decide +kernel)
+  · exact h.1
+
+
+private theorem exp_1e6 : ExpPart [0x65,0x31,0x30,0x30,0x30,0x30,0x30,0x30] :=
+  Or.inr ⟨0x65, [], [0x31,0x30,0x30,0x30,0x30,0x30,0x30], Or.inl rfl, Or.inl rfl, ⟨by decide, by decide⟩, rfl⟩
+private theorem exp_m38 : ExpPart [0x65,0x2D,0x33,0x38] :=
+  Or.inr ⟨0x65, [0x2D], [0x33,0x38], Or.inl rfl, Or.inr (Or.inr rfl), ⟨by decide, by decide⟩, rfl⟩
+
+/-- `saturated_exponent` on "1e1000000" (the model reads the exponent as 100000) -/
+example : parseNumber {} [0x31,0x65,0x31,0x30,0x30,0x30,0x30,0x30,0x30] = .f64 (infBits b64 false) :=
+  ((saturated_exponent {} false (ip := [0x31]) (f := []) (e := [0x65,0x31,0x30,0x30,0x30,0x30,0x30,0x30])
+    (by unfold AllDigits; decide) (by simp) (Or.inl rfl) exp_1e6 (by decide)).1 (by decide +kernel) (by decide +kernel)).1
+
+/-- `float_clauses` on "1e-38": the binary32 result 0x006CE3EF is SUBNORMAL, and still within 1e-6 of 1e-38 -/
+example : ∃ (m : Nat) (ex : Int), decode b32 7136239 = .fin false m ex ∧ m ≠ 0 ∧
+    |sval false m ex - 1 / 10 ^ 38| ≤ 1 / 10 ^ 6 * |(1 / 10 ^ 38 : ℚ)| := by
+  have hv : litAbs [0x31] [] [0x65,0x2D,0x33,0x38] = 1 / 10 ^ 38 := by
+    unfold litAbs
+    rw [show Digits.decVal ([0x31] ++ ([] : List Byte).tail) = 1 from by decide +kernel,
+      show expVal [0x65,0x2D,0x33,0x38] - ((([] : List Byte).tail.length : Nat) : Int) = -38 from by decide +kernel]
+    norm_num [zpow_neg]
+  have hlv : litVal false [0x31] [] [0x65,0x2D,0x33,0x38] = 1 / 10 ^ 38 := by unfold litVal; rw [hv]; simp
+  have := ((float_clauses {} false (ip := [0x31]) (f := []) (e := [0x65,0x2D,0x33,0x38])
+    (by unfold AllDigits; decide) (by simp) (Or.inl rfl) exp_m38 (by decide)).1
+    (by rw [hv, show (1 / 10 ^ 38 : ℚ) = (10 : ℚ) ^ (-38 : Int) from by norm_num [zpow_neg]]
+        exact zpow_le_zpow_right₀ (by norm_num) (by norm_num))).2.2 7136239 (by decide +kernel)
+  rw [hlv] at this
+  exact this
+
 end C12
